@@ -160,7 +160,8 @@ func (m *mWorld) primaryCause(i int, errText string) string {
 		return "oversize"
 	case m.unknownTo[i]:
 		return "unknown-channel"
-	case strings.Contains(errText, "pong timeout") && time.Since(m.started) >= m.pongT:
+	case strings.Contains(errText, "pong timeout") && m.links[0].worstWait()+m.links[1].worstWait() >= m.pongT:
+		// legitimate only if ping and pong together really spent that long in the pipe
 		return "pong-timeout"
 	}
 	return ""
@@ -233,6 +234,10 @@ func (m *mWorld) process(i int, hash bool) {
 		if e.errored || (errSeq != 0 && d.seq > errSeq) {
 			// legitimate: packets already buffered when the send side failed
 			w.res.Probe("delivery-after-onError")
+		}
+		if fnv64(d.data) != d.sum {
+			w.violate("buffer-reuse", "bytes handed to onReceive changed after the callback returned", fmt.Sprintf("%s: ch %02x %d bytes", e.name, d.ch, d.n))
+			return
 		}
 		capacity, known := e.capOf(d.ch)
 		if !known {
@@ -456,6 +461,9 @@ func (w *world) scenarioMConn() {
 				size = cs.recvCap
 			}
 		}
+		if !faulty && size > cs.recvCap {
+			size = cs.recvCap // no oversized message in fault-free runs (they may carry pings)
+		}
 		if size < 1 {
 			size = 1
 		}
@@ -503,9 +511,14 @@ func (w *world) scenarioMConn() {
 		for _, c := range clients {
 			close(c.cmd)
 		}
-		for _, e := range m.ends {
+		for i, e := range m.ends {
 			if e.mc.IsRunning() {
 				e.mc.Stop()
+			}
+			synctest.Wait()
+			// a stopped connection must have closed its socket, or its routines stay blocked
+			if ![]*pipeEnd{a, b}[i].shut.Load() && !w.failed() {
+				w.violate("leak", "stopped MConnection left the underlying connection open (its read routine stays blocked)", e.name)
 			}
 		}
 		a.Close()
@@ -531,7 +544,13 @@ func (w *world) scenarioMConn() {
 				}
 				peer := m.ends[1-c.side]
 				if s.verdict == 2 {
-					w.res.Probe("send-refused")
+					if me := m.ends[c.side]; me.mc.IsRunning() && !me.errored && !me.stopped {
+						if s.try {
+							w.res.Probe("trysend-refused-queue-full")
+						} else {
+							w.res.Probe("send-timed-out-on-running-conn")
+						}
+					}
 					if s.delivered {
 						w.violate("refused-delivered", "message whose Send returned false was delivered", fmt.Sprintf("client %d #%d ch %02x %d bytes", c.id, s.seq, s.ch, s.size))
 						return
@@ -705,6 +724,16 @@ func (w *world) scenarioMConn() {
 			time.Sleep(150 * ms)
 			w.settle()
 		}
+		// messages still queued inside a running connection (rate limiter, starved flush)
+		for _, e := range m.ends {
+			if e.mc.IsRunning() {
+				for _, cs := range e.mc.Status().Channels {
+					if cs.SendQueueSize > 0 {
+						progress = true
+					}
+				}
+			}
+		}
 		before := m.ends[0].nDel + m.ends[1].nDel
 		verdicts(false)
 		for i := 0; i < 2 && !w.failed(); i++ {
@@ -794,6 +823,9 @@ func (w *world) scenarioMConn() {
 		for _, n := range e.delivered {
 			delivered += n
 		}
+	}
+	if faultFree && delivered >= 5 && !m.ends[0].errored && !m.ends[1].errored && !m.ends[0].stopped && !m.ends[1].stopped {
+		w.res.Probe("mconn-faultfree-all-delivered-5+")
 	}
 	adversarial := w.mitm > 0 || m.oversizeTo[0] || m.oversizeTo[1] || m.unknownTo[0] || m.unknownTo[1]
 	w.res.NonTrivial = delivered >= 2 && adversarial
